@@ -75,21 +75,86 @@ class Tables:
         self.kw = []          # list of (name, dict)
         self.kw_calls = []
         self.regex_source = None
+        self.kw_alias = None      # (lineno, text) when self._keywords is bound to a non-fresh object
+
+        def add(argnode, lineno):
+            try:
+                v = f.eval(argnode, self.lexmod)
+            except NotConst as e:
+                raise AnalysisError(f'{self.lexmod.relpath}:{lineno}: add_keywords argument not foldable ({e})')
+            if not isinstance(v, dict):
+                raise AnalysisError(f'{self.lexmod.relpath}:{lineno}: add_keywords argument is not a dict')
+            self.kw.append((ast.unparse(argnode), v))
+
+        def elements(listnode, lineno):
+            """the dictionaries of a list/tuple expression, with their names: [(name, dict)]"""
+            n, mod = listnode, self.lexmod
+            # follow a module constant to its defining display so that the entries keep their names
+            for _ in range(4):
+                if isinstance(n, ast.Attribute) and isinstance(n.value, ast.Name) and n.value.id in mod.imports \
+                        and mod.imports[n.value.id][0] == 'module':
+                    m2 = repo.modules.get(mod.imports[n.value.id][1])
+                    if m2 is not None and n.attr in m2.assigns:
+                        n, mod = m2.assigns[n.attr], m2
+                        continue
+                if isinstance(n, ast.Name) and n.id in mod.assigns:
+                    n = mod.assigns[n.id]
+                    continue
+                break
+            if isinstance(n, ast.Call) and isinstance(n.func, ast.Name) and n.func.id in ('list', 'tuple') and len(n.args) == 1:
+                return elements(n.args[0], lineno) if mod is self.lexmod else elements_in(n.args[0], mod, lineno)
+            return elements_in(n, mod, lineno)
+
+        def elements_in(n, mod, lineno):
+            if isinstance(n, (ast.List, ast.Tuple)):
+                out = []
+                for e in n.elts:
+                    try:
+                        v = f.eval(e, mod)
+                    except NotConst as ex:
+                        raise AnalysisError(f'{mod.relpath}:{e.lineno}: keyword dictionary list entry not foldable ({ex})')
+                    if not isinstance(v, dict):
+                        raise AnalysisError(f'{mod.relpath}:{e.lineno}: keyword dictionary list entry is not a dict')
+                    out.append((ast.unparse(e), v))
+                return out
+            raise AnalysisError(f'{self.lexmod.relpath}:{lineno}: keyword dictionary list `{ast.unparse(n)[:60]}` is not a display of dictionaries')
+
+        def fresh(v):
+            return isinstance(v, (ast.List, ast.ListComp)) or (isinstance(v, ast.Call) and isinstance(v.func, ast.Name) and v.func.id == 'list') \
+                or (isinstance(v, ast.BinOp) and isinstance(v.op, ast.Add) and (fresh(v.left) or fresh(v.right))) \
+                or (isinstance(v, ast.Subscript) and isinstance(v.slice, ast.Slice)) \
+                or (isinstance(v, ast.Call) and isinstance(v.func, ast.Attribute) and v.func.attr == 'copy')
+
+        def is_self_call(st, names):
+            return isinstance(st, ast.Expr) and isinstance(st.value, ast.Call) and isinstance(st.value.func, ast.Attribute) \
+                and isinstance(st.value.func.value, ast.Name) and st.value.func.value.id == 'self' and st.value.func.attr in names
         for st in di.node.body:
             if isinstance(st, ast.Expr) and isinstance(st.value, ast.Call) and isinstance(st.value.func, ast.Attribute) \
                     and isinstance(st.value.func.value, ast.Name) and st.value.func.value.id == 'self':
                 m = st.value.func.attr
                 self.kw_calls.append((m, st))
                 if m == 'add_keywords' and st.value.args:
-                    try:
-                        v = f.eval(st.value.args[0], self.lexmod)
-                    except NotConst as e:
-                        raise AnalysisError(f'{self.lexmod.relpath}:{st.lineno}: add_keywords argument not foldable ({e})')
-                    if not isinstance(v, dict):
-                        raise AnalysisError(f'{self.lexmod.relpath}:{st.lineno}: add_keywords argument is not a dict')
-                    self.kw.append((ast.unparse(st.value.args[0]), v))
+                    add(st.value.args[0], st.lineno)
                 elif m == 'set_SQL_REGEX' and st.value.args:
                     self.regex_source = ast.unparse(st.value.args[0])
+            elif isinstance(st, ast.For) and isinstance(st.target, ast.Name) and len(st.body) == 1 and is_self_call(st.body[0], ('add_keywords',)) \
+                    and st.body[0].value.args and isinstance(st.body[0].value.args[0], ast.Name) and st.body[0].value.args[0].id == st.target.id:
+                # for d in <list of dictionaries>: self.add_keywords(d)
+                self.kw_calls.append(('add_keywords', st))
+                self.kw.extend(elements(st.iter, st.lineno))
+            elif isinstance(st, ast.Assign) and len(st.targets) == 1 and isinstance(st.targets[0], ast.Attribute) \
+                    and isinstance(st.targets[0].value, ast.Name) and st.targets[0].value.id == 'self' and st.targets[0].attr == '_keywords':
+                self.kw_calls.append(('_keywords=', st))
+                self.kw = elements(st.value, st.lineno)
+                if not fresh(st.value):
+                    self.kw_alias = (st.lineno, ast.unparse(st.value))
+            elif isinstance(st, ast.Expr) and isinstance(st.value, ast.Call) and isinstance(st.value.func, ast.Attribute) \
+                    and st.value.func.attr in ('extend', 'append') and ast.unparse(st.value.func.value) == 'self._keywords' and st.value.args:
+                self.kw_calls.append(('add_keywords', st))
+                if st.value.func.attr == 'append':
+                    add(st.value.args[0], st.lineno)
+                else:
+                    self.kw.extend(elements(st.value.args[0], st.lineno))
         # all module-level dicts of keywords.py
         self.all_dicts = {}
         for name, node in self.kwmod.assigns.items():
